@@ -47,6 +47,7 @@ PngIccps ==
     { Iccp(5, 0, z, 2, FALSE) : z \in {"trunc", "badhdr", "badsum"} } \cup
     { Iccp(5, 0, "fixed", 1, FALSE), Iccp(1, 0, "fixed", 1, FALSE) } \cup   \* one final fixed-Huffman block: the shortest legal stream (other encoders emit it)
     { Iccp(5, 0, z, p, TRUE) : z \in {"trunc", "badhdr", "badsum", "badblock"}, p \in {4, 6} } \cup   \* damage in large streams
+    { Iccp(5, 0, "ok6", 9, FALSE) } \cup   \* payload 9: a complete profile followed by bytes its size field does not count
     { Iccp(80, 0, "ok6", 2, FALSE), Iccp(5, 1, "ok6", 2, FALSE) }
 AncSlots == { <<>>, <<Anc("small")>>, <<Anc("big")>>, <<Anc("small"), Anc("big")>> }
 PngTails == { <<Idat, Iend>>, <<Iend>>, <<>> }
@@ -103,6 +104,8 @@ JpegFiles(MaxLetters) ==
     \cup  \* every segment kind the format allows before the scan, before and after the SOF
     UNION { { <<Other(k), Sof(0, 8, 16, 15, 3), Sos>>, <<Sof(2, 8, 257, 258, 3), Other(k), Sos>>,
               <<Other(k), IccSeg(1, 1, 1), Other(k), Sof(0, 8, 16, 15, 1), Sos>> } : k \in JpegOtherKinds }
+    \cup  \* payload 9: a complete profile followed by bytes its own size field does not count
+    { <<IccSeg(1, 1, 9), Sof(0, 8, 16, 15, 3), Sos>>, <<Sof(0, 8, 16, 15, 3), IccSeg(1, 2, 9), IccSeg(2, 2, 1), Sos>> }
     \cup  \* well-formed multi-chunk embeddings beyond the free-letter bound:
           \* 3 chunks in every order, SOF before / among / after, other segments between
     { InsertAt(<<IccSeg(p[1], 3, p[1]), Other("dqt"), IccSeg(p[2], 3, p[2]), IccSeg(p[3], 3, p[3])>>,
@@ -158,10 +161,10 @@ WebpFiles ==
     { <<Vp8x(fl, d[1], d[2])>> \o nx \o <<Vp8(64, 63, 0, 0)>> :
         fl \in { <<FALSE, FALSE, FALSE, FALSE>>, <<TRUE, FALSE, FALSE, FALSE>>,
                 <<FALSE, TRUE, TRUE, FALSE>>, <<TRUE, TRUE, FALSE, TRUE>> }, d \in Dims24,
-        nx \in { <<>>, <<OtherW("EXIF")>> } \cup { <<IccpW(p, p >= 3)>> : p \in 1..6 } \cup
+        nx \in { <<>>, <<OtherW("EXIF")>> } \cup { <<IccpW(p, p >= 3 /\ p # 9)>> : p \in (1..6) \cup {9} } \cup
                { <<IccpW(2, FALSE), OtherW("EXIF")>> } } \cup
     { <<Vp8x(<<TRUE, FALSE, FALSE, FALSE>>, 64, 63)>> } \cup       \* flag set, file ends
-    { <<Vp8x(<<TRUE, FALSE, FALSE, FALSE>>, 64, 63), IccpW(p, FALSE)>> : p \in {1, 2, 3} }   \* the profile is the last chunk of the container
+    { <<Vp8x(<<TRUE, FALSE, FALSE, FALSE>>, 64, 63), IccpW(p, FALSE)>> : p \in {1, 2, 3, 9} }   \* the profile is the last chunk of the container
 
 WebpAllowed(f) ==
     LET c == f[1] IN
